@@ -2,12 +2,18 @@
   C05 — ECB/CBC/CTR/CTS modes follow SP 800-38A and decrypt what they encrypt.
   ONLY property theorems (and their non-vacuity examples) live here; helper lemmas are in Proofs/Lemmas/Mode*.lean.
 
-  Setting.  `Model.Mode` mirrors crysp/mode.py over an abstract block cipher `c : Model.BlockCipher`
-  (any object with blocksize/enc/dec).  `Implements c k` (Proofs/Lemmas/ModeL.lean) says that on byte blocks of
-  c.len bytes `c.enc`/`c.dec` return the values of the total functions `k.E`/`k.D` of the Spec cipher `k`, that
-  these map byte blocks to byte blocks and are mutually inverse.  C03 supplies this for AES, DES, TDEA, Serpent and
-  Threefish, so every theorem below holds for every cipher of the library, every key (hidden in `c`, `k`), every
-  IV / counter block and every message in the mode's domain.
+  Setting.  `Model.Mode` mirrors crysp/mode.py over a block cipher object `c : Model.BlockCipher` (any object with
+  blocksize/enc/dec).  `Implements c k` (Proofs/Lemmas/ModeL.lean) says that on byte blocks of c.len bytes `c.enc`/`c.dec`
+  return the values of the total functions `k.E`/`k.D` of the Spec cipher `k`, that these map byte blocks to byte blocks
+  and are mutually inverse.
+    Part 1 (abstract cipher): every theorem holds for every `c`, `k` with `Implements c k`.
+    Part 2 (the library): `aes_implements`, `des_implements`, `tdea_implements`, `serpent_implements` PROVE `Implements` for
+  `AES(K)`, `DES(K)`, `TDEA(K1,K2,K3)`, `Serpent(K)` against FIPS 197 / FIPS 46-3 / SP 800-67 / the Serpent submission, every
+  accepted key, by composing the C03 (permutation) and C02 (refinement) theorems of each cipher; `lib_ecb … lib_cts_dec`
+  restate the property for `LibCipher c k` with no hypothesis on the cipher left.  Threefish is not modelled yet (hook:
+  one more constructor of `LibCipher`, Proofs/Lemmas/ModeInst.lean); until then it is covered by Part 1 only.
+    Part 3: Spec.ModePad = Spec.Padding (property C09) on byte strings.  Proofs/C05/KatF.lean: SP 800-38A appendix F vectors
+  through Spec.Mode over Spec.Aes, in the kernel.
   `Bytes M`: all elements < 256 (M is a Python `bytes`).  `PadDom s l M`: the admissible (padding, message) pairs:
   PKCS#7 / X9.23 need l < 256, no padding needs a non-empty block multiple.  `CtrDom l iv`: the counter argument is an
   l-byte string, or None with an even block length (the default counter is two halves of ⌊l/2⌋ bytes).
@@ -120,7 +126,7 @@ theorem cts_cbc_dec_enc (h : Implements c k) (iv : List Nat) (hiv : IsBlock c.le
 
 /-- the same, from the permutation hypotheses stated on the model cipher alone: on byte blocks `enc`/`dec` succeed, return
     byte blocks and invert each other (`dec (enc b) = b`, `enc (dec b) = b`).  This is the form in which C03 delivers
-    AES, DES, TDEA, Serpent and Threefish, so "for every cipher of the library" is a corollary. -/
+    its results; for AES, DES, TDEA and Serpent the instantiation is carried out below (`lib_*`). -/
 theorem dec_enc_of_permutation (c : BlockCipher) (hpos : 0 < c.len)
     (henc : ∀ b, IsBlock c.len b → ∃ y, c.enc b = .ok y ∧ IsBlock c.len y ∧ c.dec y = .ok b)
     (hdec : ∀ y, IsBlock c.len y → ∃ b, c.dec y = .ok b ∧ IsBlock c.len b ∧ c.enc b = .ok y) :
@@ -324,6 +330,34 @@ theorem lib_cts_dec (hc : LibCipher c k) (iv : List Nat) (hiv : iv.length = c.le
     (c.len ≤ C.length → CTS_ECB.dec c .no C = .ok (Spec.Mode.ecbCtsInv k C)) ∧
     (2 * c.len ≤ C.length → CTS_CBC.dec c iv .no C = .ok (Spec.Mode.cbcCtsInv k C)) :=
   ⟨fun hl => cts_ecb_dec_spec (lib_implements hc) C hC hl, fun hl => cts_cbc_dec_spec (lib_implements hc) iv hiv C hC hl⟩
+
+/-! #### the library theorems read for one cipher at a time (instances of `lib_*`, spelled out for the reader) -/
+
+/-- `CBC(AES(K),iv)` with the default PKCS#7 padding, any key of 16/24/32 bytes, any 16-byte IV, ANY message:
+    the output is IV ‖ SP 800-38A CBC over FIPS 197 of the PKCS#7-padded message, and `dec` returns the message -/
+example (K iv M : List Nat) (hl : K.length = 16 ∨ K.length = 24 ∨ K.length = 32) (hK : Bytes K) (hiv : IsBlock 16 iv)
+    (hM : Bytes M) :
+    CBC.enc (Ciphers.aes K) iv .pkcs7 M = .ok (Spec.Mode.cbc (Spec.ModeCiphers.fips197 K) iv .pkcs7 M) ∧
+    (CBC.enc (Ciphers.aes K) iv .pkcs7 M).bind (fun C => CBC.dec (Ciphers.aes K) iv .pkcs7 C) = .ok M := by
+  obtain ⟨h1, h2, _, _⟩ := lib_cbc (.aes K ⟨hl, hK⟩) iv hiv .pkcs7 M hM (fun h => by cases h) {}
+  have h1' : CBC.enc (Ciphers.aes K) iv .pkcs7 M = _ := h1
+  exact ⟨h1', by rw [h1']; exact h2⟩
+
+/-- `CTR(TDEA(K))` with one 24-byte key string and the default counter, ANY message: SP 800-38A CTR over TDEA
+    keying option 1 with the three 8-byte parts of K, nonce and count zero; same length; `dec` inverts -/
+example (K M : List Nat) (hl : K.length = 24) (hK : Bytes K) :
+    CTR.enc (Ciphers.tdea K none none) none M
+      = .ok (Spec.Mode.ctr (Spec.ModeCiphers.sp80067 (.opt1 (K.take 8) ((K.drop 8).take 8) (K.drop 16))) (List.replicate 8 0) M) ∧
+    (CTR.enc (Ciphers.tdea K none none) none M).bind (CTR.dec (Ciphers.tdea K none none) none) = .ok M := by
+  obtain ⟨h1, _, h3⟩ := lib_ctr (.tdea K none none _ (tdeaKey_string24 K hl hK)) none (fun _ h => by cases h) M
+  exact ⟨h1, h3⟩
+
+/-- `CTS_ECB(Serpent(K))`, any key of at most 32 bytes, any message of at least 16 bytes: as long as the message -/
+example (K M : List Nat) (hl : K.length ≤ 32) (hK : Bytes K) (hM : Bytes M) (hlen : 16 ≤ M.length) :
+    ∃ C, CTS_ECB.enc (Ciphers.serpent K) .no M = .ok C ∧ C.length = M.length ∧
+      C = Spec.Mode.ecbCts (Spec.ModeCiphers.serpent K) M ∧ CTS_ECB.dec (Ciphers.serpent K) .no C = .ok M := by
+  obtain ⟨h1, h2, h3⟩ := lib_cts_ecb (.serpent K ⟨hl, hK⟩) M hM hlen
+  exact ⟨_, h1, h2, rfl, h3⟩
 
 /-! ### the two padding specifications agree (Spec.ModePad of this property, Spec.Padding of the padding property C09) -/
 
